@@ -46,7 +46,8 @@ MUTANTS += [
     # ---- the repaired defects, re-introduced (each check must catch the defect it was repaired for)
     ('revert-c01-empty-string', ['C01'], P, "elif match.group('str') is not None:", "elif match.group('str'):"),
     ('revert-c01-array-n', ['C01'], P, r"array_re = r'(?P<array>array(?:\[\d+\])?)'", r"array_re = r'(?P<array>array)'"),
-    ('revert-c01-earliest-match', ['C01'], P, "    if in_match and (not match or in_match.start() < match.start()):", "    if in_match and not match:"),
+    ('revert-c01-earliest-match', ['C01'], P, "    if in_match and (not match or in_match.start('type') < match.start('type')):", "    if in_match and not match:"),
+    ('revert-c01-queue-tie', ['C01'], P, "    if in_match and (not match or in_match.start('type') < match.start('type')):", "    if in_match and (not match or in_match.start() < match.start()):"),
     ('revert-c01-greedy-queue', ['C01'], P, "queue_re = r'( {.*?})?'", "queue_re = r'( {.*})?'"),
     ('revert-c05-arg-brackets', ['C05'], MA, "    if text.startswith('[') and text.endswith(']') and _find_closing_brace(text, 0) == len(text) - 1:", "    if text.startswith('[') and text.endswith(']'):"),
     ('revert-c09-array-index', ['C09'], EX, "for elem_index in range(size // int_type.sizeof): # must not reuse i, it is the argument index\n                    elem = value['data'].cast(int_type.pointer())[elem_index]",
